@@ -1,15 +1,222 @@
-(** C08 - property theorems only. *)
+(** C08 - property theorems only. Each is closed by [exact] of a lemma proved in
+    proofs/CBProofs*.v.  Model: model/CB.v ([cb_*] = the Go code's ring buffers and
+    arithmetic, [sp_*] = the contract automaton over the log of recorded results). *)
 From EG.lib Require Import Base.
-From EG.model Require Import CB.
-From EG.proofs Require Import CBProofs.
+From EG.model Require Import CB CBCheck.
+From EG.proofs Require Import CBProofsWin CBProofsRef CBProofs CBProofsChk.
 Open Scope Z_scope.
 
+(** *** refinement: ring buffers = abstract views, concrete breaker = automaton *)
+
+(** after ANY sequence of pushes the count-based ring's running totals are the counts over
+    the last [n] results *)
+Theorem cb_count_window_refines : forall (n : nat) (rs : list res),
+  (1 <= n)%nat ->
+  exists w, cw_pushes (cw_new (Z.of_nat n)) rs = Some w /\
+    cw_total w = Z.of_nat (List.length (firstn n (rev rs))) /\
+    cw_slow w = cnt is_slow (firstn n (rev rs)) /\
+    cw_fail w = cnt is_fail (firstn n (rev rs)).
+Proof. exact count_window_refines. Qed.
+Print Assumptions cb_count_window_refines.
+
+(** after ANY sequence of pushes at non-decreasing times (evictions included) the time-based
+    ring's running totals are the counts over the results of the last [n] seconds *)
+Theorem cb_time_window_refines : forall (n : nat) (t0 : Z) (ps : list (Z * res)) (now : Z) (r : res),
+  (1 <= n)%nat -> mono_times t0 (ps ++ [(now, r)]) ->
+  exists w, tw_pushes (tw_new (Z.of_nat n) t0) (ps ++ [(now, r)]) = Some w /\
+    let v := view (KTime (Z.of_nat n)) (sec_of now) (log_of (ps ++ [(now, r)])) in
+    tw_total w = Z.of_nat (List.length v) /\ tw_slow w = cnt is_slow v /\ tw_fail w = cnt is_fail v.
+Proof. exact time_window_refines. Qed.
+Print Assumptions cb_time_window_refines.
+
+(** the concrete breaker and the automaton show the same (permitted|panicked, state, stateID)
+    at every step of every history with a non-decreasing clock ([bound] = 2^25) *)
+Theorem cb_refines_spec : forall pol t0 ops,
+  mono t0 ops ->
+  p_perm pol < bound -> (p_time pol = false -> p_size pol < bound) ->
+  (p_time pol = true -> Z.of_nat (List.length ops) < bound) ->
+  cb_run pol (cb_new pol t0) ops = sp_run pol (sp_new pol t0) ops.
+Proof. exact refines_spec. Qed.
+Print Assumptions cb_refines_spec.
+
+(** every state reachable by any history is well formed (window kind fixed by the state) *)
+Theorem C08_reachable_well_formed : forall pol t0 ops, sp_wf pol (sp_final pol (sp_new pol t0) ops).
+Proof. intros. apply sp_wf_final, sp_wf_new. Qed.
+Print Assumptions C08_reachable_well_formed.
+
+(** *** the clauses *)
+
+(** while CLOSED every call passes (and nothing changes) *)
 Theorem C08_closed_passes : forall pol now s,
   s_state s = Closed -> sp_acquire pol now s = (true, s).
 Proof. exact closed_passes. Qed.
 Print Assumptions C08_closed_passes.
 
-Theorem C08_stale_results_ignored : forall pol now id r s,
+(** after a result is recorded in CLOSED: OPEN iff at least minimumNumberOfCalls results are in
+    the sliding window (last N results / results of the last N seconds of this epoch) and the
+    failure rate or the slow rate (floor of 100*k/total) is at or above its threshold *)
+Theorem C08_opens_at_threshold : forall pol now r s,
+  sp_wf pol s -> s_state s = Closed -> 0 < p_size pol ->
+  let log' := (sec_of now, r) :: s_log s in
+  let v := view (pol_kind pol) (sec_of now) log' in
+  let n := Z.of_nat (List.length v) in
+  let s' := snd (sp_record pol now (s_id s) r s) in
+  fst (sp_record pol now (s_id s) r s) = false /\
+  (s_state s' = Open <->
+     p_min pol <= n /\ (p_fthr pol <= 100 * cnt is_fail v / n \/ p_sthr pol <= 100 * cnt is_slow v / n)) /\
+  (s_state s' = Open -> s_id s' = s_id s + 1 /\ s_transit s' = now) /\
+  (s_state s' <> Open -> s' = sp_set_log s log').
+Proof. exact opens_at_threshold. Qed.
+Print Assumptions C08_opens_at_threshold.
+
+(** OPEN short-circuits every call, whatever else happens, until waitDurationInOpenState has
+    elapsed since the transition *)
+Theorem C08_open_short_circuits_until_wait : forall pol ops s,
+  s_state s = Open -> (forall o, In o ops -> op_now o - s_transit s < p_wait pol) ->
+  Forall2 (fun o ob => snd (fst ob) = Open /\ snd ob = s_id s /\ (is_acq o = true -> fst (fst ob) = false))
+          ops (sp_run pol s ops) /\
+  s_state (sp_final pol s ops) = Open /\ s_id (sp_final pol s ops) = s_id s /\
+  s_transit (sp_final pol s ops) = s_transit s.
+Proof. exact open_short_circuits. Qed.
+Print Assumptions C08_open_short_circuits_until_wait.
+
+(** the first call after the wait enters HALF_OPEN (new id, empty log, count window of size
+    permitted) and is itself the first trial *)
+Theorem C08_wait_elapsed_enters_half_open : forall pol now s,
+  s_state s = Open -> p_wait pol <= now - s_transit s ->
+  sp_acquire pol now s = ((0 <? p_perm pol), half_open_entry pol now s).
+Proof. exact acq_open_elapsed. Qed.
+Print Assumptions C08_wait_elapsed_enters_half_open.
+
+(** in a half-open epoch, over ANY continuation, the acquisitions made while the epoch lasts are
+    admitted exactly while fewer than [permitted] have been admitted ([s_trials] = 0 at entry:
+    exactly the first [permitted] ones) *)
+Theorem C08_half_open_admits_first_permitted : forall pol ops s i b,
+  s_state s = HalfOpen ->
+  nth_error (epoch_admits pol (s_id s) s ops) i = Some b ->
+  b = (s_trials s + Z.of_nat i <? p_perm pol).
+Proof. exact half_open_admits. Qed.
+Print Assumptions C08_half_open_admits_first_permitted.
+
+(** the trials' recorded results decide: below min(minimum, permitted) results nothing happens;
+    from then on a rate at/above threshold reopens, otherwise the breaker closes *)
+Theorem C08_trials_decide : forall pol now r s,
+  sp_wf pol s -> s_state s = HalfOpen -> 0 < p_perm pol ->
+  let log' := (sec_of now, r) :: s_log s in
+  let v := view (KCount (p_perm pol)) (sec_of now) log' in
+  let n := Z.of_nat (List.length v) in
+  let tripped := p_fthr pol <= 100 * cnt is_fail v / n \/ p_sthr pol <= 100 * cnt is_slow v / n in
+  let s' := snd (sp_record pol now (s_id s) r s) in
+  fst (sp_record pol now (s_id s) r s) = false /\
+  (n < Z.min (p_min pol) (p_perm pol) -> s' = sp_set_log s log') /\
+  (Z.min (p_min pol) (p_perm pol) <= n -> tripped -> s' = opened now s log') /\
+  (Z.min (p_min pol) (p_perm pol) <= n -> ~ tripped -> s' = recovered pol now s).
+Proof. exact trials_decide. Qed.
+Print Assumptions C08_trials_decide.
+
+(** a result carrying another id than the current one leaves the whole state unchanged *)
+Theorem C08_stale_result_no_effect : forall pol now id r s,
   id <> s_id s -> sp_record pol now id r s = (false, s).
 Proof. exact stale_ignored_local. Qed.
+Print Assumptions C08_stale_result_no_effect.
+
+(** ... and the id of a state is never current again once ANY transition has happened: a result
+    of a call admitted in an earlier state (id obtained at [s], any history [ops] in which the
+    observed state or id differed at least once) is ignored *)
+Theorem C08_stale_results_ignored : forall pol ops s now r,
+  (exists ob, In ob (sp_run pol s ops) /\ (snd (fst ob) <> s_state s \/ snd ob <> s_id s)) ->
+  sp_record pol now (s_id s) r (sp_final pol s ops) = (false, sp_final pol s ops).
+Proof. exact stale_results_ignored. Qed.
 Print Assumptions C08_stale_results_ignored.
+
+(** every step either leaves (id, state, transit time) alone or moves to a different state with
+    id + 1 and transit time = the step's clock *)
+Theorem C08_id_tracks_transitions : forall pol o s,
+  unchanged s (snd (sp_step pol o s)) \/ transited (op_now o) s (snd (sp_step pol o s)).
+Proof. exact step_id. Qed.
+Print Assumptions C08_id_tracks_transitions.
+
+(** maxWaitDurationInHalfOpenState, when set, reopens a stalled half-open breaker; when not set
+    (or not yet exceeded) the breaker keeps short-circuiting in HALF_OPEN *)
+Theorem C08_max_wait_reopens : forall pol now s,
+  s_state s = HalfOpen -> p_perm pol <= s_trials s ->
+  (0 < p_maxwait pol -> p_maxwait pol < now - s_transit s ->
+     sp_acquire pol now s = (false, reopened now s)) /\
+  (p_maxwait pol <= 0 \/ now - s_transit s <= p_maxwait pol ->
+     sp_acquire pol now s = (false, s)).
+Proof. exact max_wait_reopens. Qed.
+Print Assumptions C08_max_wait_reopens.
+
+(** *** the trace checker used as [prop] accepts every trace of the automaton and of the
+    concrete model, for every policy and history *)
+Theorem C08_checker_accepts_spec : forall pol t0 ops,
+  chk_run pol (chk_init t0) ops (sp_run pol (sp_new pol t0) ops) = true.
+Proof. exact checker_accepts_spec. Qed.
+Print Assumptions C08_checker_accepts_spec.
+
+Theorem C08_checker_accepts_model : forall pol t0 ops,
+  mono t0 ops ->
+  p_perm pol < bound -> (p_time pol = false -> p_size pol < bound) ->
+  (p_time pol = true -> Z.of_nat (List.length ops) < bound) ->
+  chk_run pol (chk_init t0) ops (cb_run pol (cb_new pol t0) ops) = true.
+Proof. exact checker_accepts_model. Qed.
+Print Assumptions C08_checker_accepts_model.
+
+(** *** wrapper and pool *)
+
+(** an admitted call records exactly one result, a failure iff the handler returned an error or
+    panicked (deferred record); a rejected call records nothing and does not run the handler *)
+Theorem C08_wrapper_one_record_per_call : forall pol now h c,
+  wrap_records h = [match h with HOk => false | _ => true end] /\
+  let '(ok, c1) := cb_acquire pol now c in
+  wrap_call pol now h c =
+  if ok then (wrap_result h,
+              snd (cb_record pol now (c_id c1) (classify pol (match h with HOk => false | _ => true end) 0) c1))
+  else (WShort, c1).
+Proof. intros. split; [apply wrapper_one_record | apply wrapper_call_shape]. Qed.
+Print Assumptions C08_wrapper_one_record_per_call.
+
+(** a short-circuited call is answered 503 / shortCircuited and runs no handler (contacts no server) *)
+Theorem C08_short_circuit_is_503 : forall pol now h c b,
+  fst (cb_acquire pol now c) = false ->
+  fst (wrap_call pol now h c) = WShort /\
+  snd (wrap_call pol now h c) = snd (cb_acquire pol now c) /\
+  pool_result (fst (wrap_call pol now h c)) b = (503, "shortCircuited"%string) /\
+  wrap_handler_runs (fst (wrap_call pol now h c)) = 0.
+Proof. exact short_circuit_503. Qed.
+Print Assumptions C08_short_circuit_is_503.
+
+(** *** non-vacuity: a concrete history that opens at the exact 50% boundary (time window,
+    minimum 2), short-circuits, re-enters HALF_OPEN after the wait, admits exactly 2 trials,
+    ignores a stale result and recovers; the hypotheses of the theorems above hold along it *)
+Definition ex_ms : Z := 1000000.
+Definition ex_pol : policy :=
+  {| p_fthr := 50; p_sthr := 100; p_time := true; p_size := 2; p_perm := 2; p_min := 2;
+     p_slowdur := 1000 * ex_ms; p_maxwait := 5000 * ex_ms; p_wait := 3000 * ex_ms |}.
+Definition ex_ops : list op :=
+  [OAcq 700; ORec (100 * ex_ms) 1 true 0; OAcq (150 * ex_ms); ORec (200 * ex_ms) 1 false 0;
+   OAcq (1000 * ex_ms); ORec (1100 * ex_ms) 1 true 0; OAcq (3200 * ex_ms); OAcq (3300 * ex_ms);
+   OAcq (3400 * ex_ms); ORec (3500 * ex_ms) 3 false 0; ORec (3600 * ex_ms) 2 true 0;
+   ORec (3700 * ex_ms) 3 false (2000 * ex_ms); OAcq (3800 * ex_ms)].
+
+Example C08_nonvacuous :
+  mono 500 ex_ops /\
+  map obs_code (cb_run ex_pol (cb_new ex_pol 500) ex_ops) =
+    [(1, 1, 1); (0, 1, 1); (1, 1, 1); (0, 3, 2); (0, 3, 2); (0, 3, 2); (1, 2, 3); (1, 2, 3);
+     (0, 2, 3); (0, 2, 3); (0, 2, 3); (0, 1, 4); (1, 1, 4)] /\
+  (let s := sp_final ex_pol (sp_new ex_pol 500) (firstn 3 ex_ops) in
+   sp_wf ex_pol s /\ s_state s = Closed /\ 0 < p_size ex_pol /\
+   s_state (snd (sp_record ex_pol (200 * ex_ms) (s_id s) RSucc s)) = Open) /\
+  (let s := sp_final ex_pol (sp_new ex_pol 500) (firstn 7 ex_ops) in
+   s_state s = HalfOpen /\ s_trials s = 1 /\
+   epoch_admits ex_pol (s_id s) s (skipn 7 ex_ops) = [true; false]) /\
+  (let s := sp_final ex_pol (sp_new ex_pol 500) (firstn 4 ex_ops) in
+   s_state s = Open /\ p_wait ex_pol <= 3200 * ex_ms - s_transit s).
+Proof.
+  split; [cbn; unfold ex_ms; lia|]. split; [vm_compute; reflexivity|].
+  split; [|split].
+  - cbv zeta. split; [vm_compute; reflexivity|]. split; [vm_compute; reflexivity|].
+    split; [vm_compute; reflexivity|]. vm_compute. reflexivity.
+  - cbv zeta. split; [vm_compute; reflexivity|]. split; vm_compute; reflexivity.
+  - cbv zeta. split; [vm_compute; reflexivity|]. vm_compute. discriminate.
+Qed.
